@@ -211,6 +211,7 @@ test(%s)
 %s | reverse
 %s | unique
 %s | to_entries
+%s | from_entries
 %s | to_json
 %s | min
 .[] | %s
@@ -240,6 +241,9 @@ var c08HandDocs = []string{
 	"[{key: a, value: 1}, {key: b, value: [1, 0]}] # entries\n",
 	"- [a, 1]\n- [b, 2] # rows\n",
 	"a: 2021-01-01T00:00:00Z\nb: 1.5\nc: 0x10\nd: -1\ne: ''\n",
+	// entries that lack a field the consumer looks for
+	"[{key: a, value: 1}, {key: b}, {value: 2}] # entries\n",
+	"e: [{key: a}, {key: b, value: ~}]\nf: [{name: x}]\n",
 	// an anchored value that itself holds an alias and a further anchor, aliased twice
 	"y: &y 1\na: &x {p: *y, q: &in 5} # la\nb: *x\nc: [*x, *in]\n",
 }
